@@ -260,8 +260,26 @@ func genMarshalRes(r *Rng, typ jsonapi.Type, o *Out) (jsonapi.Resource, map[stri
 	}
 	var res jsonapi.Resource
 	if r.bool() {
-		res = newSoft(typ)
+		sr := newSoftVia(r, typ, o)
+		res = sr
 		o.stat("res.soft")
+		if r.chance(1, 3) {
+			// only some of the fields are ever set: the others read their zero value
+			o.stat("res.soft-partly-set")
+			sr.SetID(mStrPool[r.IntN(len(mStrPool))])
+			for _, k := range sortedKeys(vals) {
+				if r.bool() {
+					sr.Set(k, cloneVal(vals[k]))
+				} else if a, ok := typ.Attrs[k]; ok {
+					vals[k] = jsonapi.GetZeroValue(a.Type, a.Nullable)
+				} else if typ.Rels[k].ToOne {
+					vals[k] = ""
+				} else {
+					vals[k] = []string{}
+				}
+			}
+			return res, vals
+		}
 	} else {
 		o.stat("res.wrapped")
 		if r.bool() {
